@@ -836,6 +836,7 @@ func NoFragmentCyclesRule(context *ValidationContext) *ValidationRuleInstance {
 	// the graph to find all possible cycles.
 	var detectCycleRecursive func(fragment *ast.FragmentDefinition)
 	detectCycleRecursive = func(fragment *ast.FragmentDefinition) {
+		verifCount(8)
 
 		fragmentName := ""
 		if fragment.Name != nil {
